@@ -32,7 +32,7 @@ func init() {
 		ID: "C15",
 		Rule: "Fixed corpus (same at every seed, sharded by index): the literals min-1,min,max,max+1 of every integer width (builtin, named, and the 11 integral-slice element types) in 8 literal forms " +
 			"(decimal, 0x, 0X, 0b, 0B, 0o, 0O, legacy 0) through every entry point (parse.String scalar, slice element, map value, map key, parse.Signed/UnsignedIntegralSlice alone and padded in the middle of a list, flag helper Set); " +
-			"every literal in [-300,300] for the 8-bit types and every value of the 16-bit types; all float32/float64 edge bit patterns as scalars and as complex parts; float literals at the exact round-to-even overflow threshold and its neighbours; " +
+			"every literal in [-300,300] for the 8-bit types and every value of the 16-bit types; all float32/float64 edge bit patterns as scalars and as complex parts; the canonical text of float32 bit patterns (thorough: all 2^32, exhaustively; quick: a seeded stride sample of 2^22 plus the two patterns whose text is double-rounding-sensitive) as scalar, and every 64th as []float32 element and named type; float literals at the exact round-to-even overflow threshold and its neighbours; " +
 			"duration limits; every single and every ordered pair of " + strconv.Itoa(len(c15HostilePieces)) + " hostile string pieces as []string, set, map[string]string and map[string][]string. " +
 			"Seeded cases draw one of 8 families: scalar round-trip (33 types), integral slices (canonical, decorated literals with base prefixes/'_'/whitespace, out-of-range elements), " +
 			"string collections of hostile strings (flag helper String() text and the harness's own formatter; dedicated parser, parse.String and flag helper Set), typed slices via parse.String, typed maps via parse.Map, " +
@@ -45,13 +45,14 @@ func init() {
 			"canonical text of []T for non-string, non-integer T (no flag helper prints it) is taken to be the comma-joined canonical scalars, as the integral-slice helpers print",
 			"round-trips of map[K]V other than map[string]string (no flag helper prints them) and the value returned for in-range non-canonical scalar literals are recorded, not judged; out-of-range literals are judged in every position",
 			"texts that are not the canonical form of any value (duplicate set members / map keys, string literals Go cannot unquote) are outside the statement: acceptance is recorded in observed_sets.noncanonical_accepted, not judged",
+			"map texts are lists of independent entries: what parse.Map / StringStringSliceMap return for a list must be the union of what they return for each entry alone (and an error iff some entry fails alone); the meaning of an entry without value text is whatever the code gives it alone",
 			"map entries whose value list is empty have no text form and are not generated; NaN and -0 are not used as map keys",
 			"int/uint/uintptr are 64 bits wide on this platform",
 		},
 		MinDistinct: map[string]int{"quick": 2500000, "thorough": 2000000},
 		MinCounters: map[string]map[string]int64{
-			"quick":    {"comparisons": 5000000, "range_probes_rejected": 2000000, "decorated_literals_accepted": 2000000, "hostile_strings_roundtripped": 5000000},
-			"thorough": {"comparisons": 60000000, "range_probes_rejected": 24000000, "decorated_literals_accepted": 24000000, "hostile_strings_roundtripped": 60000000},
+			"quick":    {"map_entry_lists_checked": 100000, "float32_bit_patterns_roundtripped": 4000000, "comparisons": 5000000, "range_probes_rejected": 2000000, "decorated_literals_accepted": 2000000, "hostile_strings_roundtripped": 5000000},
+			"thorough": {"float32_bit_patterns_roundtripped": 4294967296, "comparisons": 60000000, "range_probes_rejected": 24000000, "decorated_literals_accepted": 24000000, "hostile_strings_roundtripped": 60000000},
 		},
 		Plan: func(tier string) fw.Plan {
 			if tier == "thorough" {
@@ -1156,6 +1157,7 @@ func c15Distinct(w *fw.Worker, sig string) {
 func runC15(w *fw.Worker) {
 	if w.ReplayCase < 0 {
 		c15Corpus(w)
+		c15Guard(w, -32, func() { c15Float32Sweep(w) })
 	}
 	w.Cases(func(i int, r *fw.Rand) {
 		e := &c15Eval{w: w}
@@ -1239,6 +1241,11 @@ func runC15(w *fw.Worker) {
 			}
 			typ = "map[" + k.name + "]" + v.name
 			text = e.typedMap(k, v, sk, sv)
+			if len(sk) >= 2 {
+				text += "|" + e.mapEntryIndependence(r, k, v, sk, sv)
+			} else {
+				text += "|" + e.ssMapEntryIndependence(r)
+			}
 			nontrivial = len(keys) > 0
 		case p < 91:
 			fam = "intprobe"
